@@ -653,5 +653,14 @@ pub const fn format_error<const FORMAT: u128>() -> Error {
     NumberFormat::<FORMAT> {}.error()
 }
 
+/// Verification hook: run-time access to the packed-format validator
+/// (`format_error` above only exists for const-generic formats).
+#[cfg(lexical_verif)]
+#[doc(hidden)]
+#[inline(always)]
+pub const fn verif_format_error(format: u128) -> Error {
+    format_error_impl(format)
+}
+
 /// Standard number format. This is identical to the Rust string format.
 pub const STANDARD: u128 = NumberFormatBuilder::new().build_strict();
